@@ -105,7 +105,14 @@ def rand_outcome(rng, p_fault):
     if rng.random() > p_fault:
         return "ok"
     k = rng.choice(["lost", "rlost", "delay", "dup", "busy", "sum", "fatal",
-                    "lost", "rlost", "delay", "dup", "busy"])
+                    "lost", "rlost", "delay", "dup", "busy", "trail",
+                    "late_rc"])
+    if k == "trail":
+        return ("trail", rng.choice([0x8d, 0x82] + FATAL[:3])) \
+            if rng.random() < .5 else "ok"
+    if k == "late_rc":
+        return ("late_rc", rng.choice([0x8d, 0x82] + FATAL[:2]),
+                rng.choice([0.5, 1.2, 2.5])) if rng.random() < .5 else "ok"
     if k == "delay":
         return ("delay", rng.choice([0.3, 0.9, 1.5, 2.5, 3.5, 5.2]))
     if k == "dup":
@@ -130,7 +137,13 @@ def gen(cls, idx, rng, tier):
                     n=65536 + first + rng.randint(4, 40),
                     stuck=[first + i for i in range(rng.choice([2, 2, 3]))
                            ][:2 if idx % 2 == 0 else 3],
-                    stuck_extra=2000.0)
+                    stuck_extra=2000.0,
+                    # answers to early commands turn up again this many
+                    # commands later (never a multiple of 2**16, where the
+                    # 16-bit sequence number legitimately comes round again)
+                    stale=[(first + 50 + 7 * k_, d_) for k_, d_ in enumerate(
+                        rng.sample([256, 1024, 4096, 8192, 16384, 32768,
+                                    12288, 65535, 61440], 5))])
     n_bursts = 1 if cls == "random" else rng.randint(2, 4)
     T = rng.randint(1, 5)
     timeout = rng.choice([0.05, 0.1, 0.5])
@@ -164,7 +177,8 @@ class Echo(object):
         return simnet.make_reply(req, 0x80, (cid, 0xabc, self.executed[cid]))
 
 
-def run_connection(T, timeout, bursts, buffer_size=256, seq_start=0):
+def run_connection(T, timeout, bursts, buffer_size=256, seq_start=0,
+                   stale=()):
     """Drive the real connection; -> list of (burst description, events)"""
     sc = importlib.import_module("rig.machine_control.scp_connection")
     net = simnet.Net()
@@ -173,11 +187,18 @@ def run_connection(T, timeout, bursts, buffer_size=256, seq_start=0):
     net.bind(sc)
     tries = {}
 
+    first_request = {}
+    stale_at = {}
+
     def plan_fn(net_, sock, data, n):
         req = simnet.parse_scp(data)
         cid, = struct.unpack_from("<I", req["body"])
         t = tries.get(cid, 0)
         tries[cid] = t + 1
+        first_request.setdefault(cid, data)
+        if cid in stale_at and t == 0 and stale_at[cid] in first_request:
+            return [("replay", first_request[stale_at[cid]], 0.0),
+                    ("ok", 0.0)]
         sched = schedule.get(cid, [])
         o = sched[t] if t < len(sched) else "ok"
         to = cmd_timeout[cid]
@@ -205,8 +226,16 @@ def run_connection(T, timeout, bursts, buffer_size=256, seq_start=0):
             return [("dup", 0.0, o[1] * to)]
         if o[0] == "fatal":
             return [("rc", o[1], 0.0)]
+        if o[0] == "trail":
+            # the command is answered OK and an error reply to the same
+            # command (e.g. a delayed earlier one) arrives right behind it
+            return [("ok", 0.0), ("rc", o[1], 0.0)]
+        if o[0] == "late_rc":
+            return [("rc", o[1], o[2] * to)]
         raise AssertionError(o)
     net.plan = plan_fn
+    for i_, d_ in stale:            # command ids are 1-based positions
+        stale_at[i_ + 1 + d_] = i_ + 1
     conn = sc.SCPConnection("board", n_tries=T, timeout=timeout)
     if seq_start and hasattr(conn, "seq"):
         # a long-lived connection: the 16-bit sequence counter is about to
@@ -245,7 +274,16 @@ def run_connection(T, timeout, bursts, buffer_size=256, seq_start=0):
             outcome = ("fatal", getattr(e, "return_code", None), repr(e))
         except Exception as e:
             outcome = ("other", type(e).__name__, repr(e))
-        results.append(dict(ids=ids, W=b["W"], T=T,
+        # datagrams that had already arrived at the client's socket when the
+        # client last looked, and were never read
+        # (judged against the moment of the client's last recv() call: the
+        # virtual clock creeps on with every time.time(), so "before the call
+        # returned" would also catch datagrams arriving a microsecond after
+        # the client had correctly found its socket empty)
+        t_seen = conn.sock.t_last_recv
+        unread = [bytes(d) for t_, _, d in sorted(conn.sock.inq)
+                  if t_seen is not None and t_ <= t_seen]
+        results.append(dict(ids=ids, W=b["W"], T=T, unread=unread,
                             timeouts={c: cmd_timeout[c] for c in ids},
                             outcome=outcome, t_end=net.clock.now,
                             events=net.log[log_start:],
@@ -261,6 +299,14 @@ def run_connection(T, timeout, bursts, buffer_size=256, seq_start=0):
 def judge_burst(ctx, r, sc_mod, earlier_ids):
     """Offline checker over one burst's event log."""
     ids, W, T = r["ids"], r["W"], r["T"]
+    if r["outcome"][0] == "return" and ids:     # an empty burst reads nothing
+        for d in r.get("unread", ()):
+            rc = simnet.parse_scp(d)["cmd"]
+            ctx.hit("arrived_datagram_left_unread")
+            check(rc not in FATAL, "fatal-reply-ignored",
+                  "the burst returned normally although a reply carrying the "
+                  "fatal code %#x was waiting in the socket when the "
+                  "client last read from it, and was left unread" % rc)
     idset = set(ids)
     sends = {c: [] for c in ids}        # times of transmissions
     seq_of = {}
@@ -426,7 +472,9 @@ def run(case, ctx):
             else:
                 cmds.append((0.0, []))
         results, sc = run_connection(case["T"], case["timeout"],
-                                     [dict(W=case["W"], cmds=cmds)])
+                                     [dict(W=case["W"], cmds=cmds)],
+                                     stale=case.get("stale", ()))
+        ctx.hit("stale_duplicate_delivered", len(case.get("stale", ())))
         r = results[0]
         judge_burst(ctx, r, sc, set())
         seqs_seen = {simnet.parse_scp(e[3])["seq"] for e in r["events"]
